@@ -17,6 +17,7 @@ import (
 	"go/token"
 	"io"
 	mrand "math/rand"
+	"net/url"
 	"os"
 	"os/exec"
 	"path/filepath"
@@ -426,12 +427,6 @@ func runC06(c *Ctx) {
 				Replay: map[string]any{"failing_reads": fails, "state": res.State, "nonce": res.Nonce, "window_ns": []int64{res.T0, res.T1}, "recovered_session_id": res.Sid}})
 		}
 	}
-	// (3) relation battery
-	seen := map[string]bool{}
-	posCount := make([]map[byte]int, 64)
-	for i := range posCount {
-		posCount[i] = map[byte]int{}
-	}
 	report := func(sig, what string, rp any) {
 		for _, f := range c.Sum.GoFindings {
 			if f.Signature == sig {
@@ -439,6 +434,61 @@ func runC06(c *Ctx) {
 			}
 		}
 		c.Sum.GoFindings = append(c.Sum.GoFindings, Finding{Signature: sig, What: what, Replay: rp})
+	}
+	// (2c) what the HANDLER does with the values it draws: over browser histories with pending logins (a second tab, a reload, an
+	// asset request while the login is in flight), logins and logouts, every state, nonce, code challenge and session id that
+	// leaves the service in a redirect must be new - never one that an earlier answer disclosed
+	nh := 60
+	if c.Thorough() {
+		nh = 600
+	}
+	for i := 0; i < nh; i++ {
+		o := cfgVariants[i%len(cfgVariants)]
+		o.Store = []string{"memory", "redis"}[i%2]
+		w := newWorld(c.Seed*911+int64(i), o)
+		s := newSim(w, newRand(c.Seed, int64(60000+i)))
+		s.Visit("/app")
+		s.Visit("/favicon.ico") // with the cookie of the login in flight
+		s.Visit("/app?tab=2")
+		s.Login("/app", compliant())
+		s.Visit("/app")
+		for k := 0; k < 6; k++ {
+			s.RandomStep(0, 10)
+		}
+		disclosed := map[string]int{}
+		for si, st := range s.Steps {
+			c.Sum.Evaluations++
+			var vals []string
+			for _, h := range st.Resp.Headers {
+				switch h[0] {
+				case "location":
+					if u, err := url.Parse(h[1]); err == nil && u.Query().Get("code_challenge") != "" {
+						vals = append(vals, "state="+u.Query().Get("state"), "nonce="+u.Query().Get("nonce"), "code_challenge="+u.Query().Get("code_challenge"))
+					}
+				case "set-cookie":
+					if v := strings.SplitN(strings.SplitN(h[1], ";", 2)[0], "=", 2); len(v) == 2 && v[1] != "deleted" {
+						vals = append(vals, "session="+v[1])
+					}
+				}
+			}
+			for _, v := range vals {
+				if prev, ok := disclosed[v]; ok {
+					report("C06/value-of-an-earlier-answer-reissued", fmt.Sprintf("answer %d issues %.60s, which answer %d had already disclosed", si, v, prev),
+						s.descr(map[string]any{"step": si, "earlier_step": prev, "value": v}))
+				}
+			}
+			for _, v := range vals {
+				disclosed[v] = si
+			}
+		}
+		c.Hist("handler_histories", o.Store)
+		w.Close()
+	}
+	// (3) relation battery
+	seen := map[string]bool{}
+	posCount := make([]map[byte]int, 64)
+	for i := range posCount {
+		posCount[i] = map[byte]int{}
 	}
 	var prev [3]string
 	for i := 0; i < draws; i++ {
